@@ -4,6 +4,7 @@
 From Coq Require Import Strings.String Strings.Byte.
 From Coq Require Import List NArith.
 From Goit Require Import Bytes Regex GoRegex Reflog Repo RegexFacts ReflogFacts.
+From Goit Require Import Obj Tree Index Commit World ExactFacts.
 Import ListNotations.
 
 (* every "HEAD@{<n>}" is accepted and denotes n, for every n (any number of digits) *)
@@ -29,7 +30,57 @@ Theorem C08_out_of_range_refused : forall rs n,
   (n < length rs)%nat <-> exists r, get_record rs n = Some r.
 Proof. exact get_record_total. Qed.
 
+
+(* ---------- Part 2: what each mode changes ---------- *)
+(* refused: wrong flags, not exactly one argument, malformed argument, position
+   out of range, zero-id record => error, empty trace, same world *)
+Theorem C08_refused_changes_nothing : forall e c soft mixed hard args w r w' tr,
+  run_m (cmd_reset e c soft mixed hard args) w = (r, w', tr) ->
+  reset_mode_ok soft mixed hard = false \/ length args <> 1%nat \/ (exists a, args = [a] /\ reset_target w a = None) ->
+  r = Err /\ w' = w /\ tr = [].
+Proof. exact cmd_reset_refused_step. Qed.
+
+(* --soft: the current branch moves to the target, HEAD and every other branch
+   stay, staging area and work tree are untouched *)
+Theorem C08_soft_spec : forall e c w a prev tid pc tc,
+  reset_target w a = Some tid -> x_headc c = Some (prev, pc) -> get_commit (w_objs w) tid = Some tc ->
+  am_mem (w_refs w) (w_head w) = true -> forall mixed,
+  let tr := reset_head_trace e c w prev tid a in
+  runs (cmd_reset e c true mixed false [a]) w (Ok []) tr /\ reset_common_post w tid (apply_effects tr w) /\
+  w_index (apply_effects tr w) = w_index w /\ same_wt w (apply_effects tr w).
+Proof. exact cmd_reset_soft_spec. Qed.
+
+(* --mixed: additionally the staging area becomes the target snapshot as Goit
+   reads it; the work tree is untouched *)
+Theorem C08_mixed_spec : forall e c w a prev tid pc tc,
+  reset_target w a = Some tid -> x_headc c = Some (prev, pc) -> get_commit (w_objs w) tid = Some tc ->
+  am_mem (w_refs w) (w_head w) = true -> forall d ns,
+  get_kind (w_objs w) KTree (c_tree tc) = Some d -> walk_tree (S (length (w_objs w))) (w_objs w) d = Some ns ->
+  let tr := reset_head_trace e c w prev tid a ++ [ESetIndex (flatten [] ns)] in
+  runs (cmd_reset e c false true false [a]) w (Ok []) tr /\ reset_common_post w tid (apply_effects tr w) /\
+  idx_of (apply_effects tr w) = flatten [] ns /\ same_wt w (apply_effects tr w).
+Proof. exact cmd_reset_mixed_spec. Qed.
+
+(* --hard, when it succeeds: every file of the snapshot holds the committed bytes *)
+Theorem C08_hard_spec : forall e c mixed a w out w' tr,
+  run_m (cmd_reset e c false mixed true [a]) w = (Ok out, w', tr) ->
+  exists tid es, reset_target w a = Some tid /\ reset_entries w a = Some es /\ reset_hard_post w tid es w' /\
+                 w' = apply_effects tr w.
+Proof. exact cmd_reset_hard_spec. Qed.
+
+(* --hard, whatever the outcome: a file that is not in the target snapshot is
+   never touched *)
+Theorem C08_hard_never_touches_other_files : forall e c mixed a w r w' tr q,
+  run_m (cmd_reset e c false mixed true [a]) w = (r, w', tr) ->
+  (forall es, reset_entries w a = Some es -> ~ In q (IndexFacts.paths es)) -> file w' q = file w q.
+Proof. exact cmd_reset_hard_frame. Qed.
+
 Print Assumptions C08_reset_arg_accepts.
 Print Assumptions C08_reset_arg_only.
 Print Assumptions C08_position_is_what_reflog_shows.
 Print Assumptions C08_out_of_range_refused.
+Print Assumptions C08_refused_changes_nothing.
+Print Assumptions C08_soft_spec.
+Print Assumptions C08_mixed_spec.
+Print Assumptions C08_hard_spec.
+Print Assumptions C08_hard_never_touches_other_files.
